@@ -3,3 +3,22 @@ package props
 import "sort"
 
 func sortInts(a []int) { sort.Ints(a) }
+
+func itoa(i int) string {
+	if i == 0 {
+		return "0"
+	}
+	s := ""
+	neg := i < 0
+	if neg {
+		i = -i
+	}
+	for i > 0 {
+		s = string(rune('0'+i%10)) + s
+		i /= 10
+	}
+	if neg {
+		s = "-" + s
+	}
+	return s
+}
